@@ -2,14 +2,24 @@
 // for properties C02 (requests deliver the payload intact) and C03 (responses
 // deliver the result intact). It builds a batch of designs through the real DSL,
 // generates and compiles their code with a stub service, runs scripted exchanges,
-// evaluates the properties directly on what the real code did, and writes the
-// exchanges as Coq terms for the Transport model.
+// evaluates the properties directly on what the real code did (the direct oracle),
+// and writes the finalised endpoints, the exchanges and the tapped wire as Coq terms
+// for the Transport model (cases_*.txt).
+//
+// Streams:
+//
+//	fixed    seed-independent exchanges on the hand-written witness design, inside wire_safe (must pass)
+//	main     random designs x values from boundary classes, transport-safe strings (must pass)
+//	hostile  same designs, hostile strings (spaces % / + unicode quotes …) in BODY attributes and
+//	         QUERY parameters, where the full property is expected to hold (must pass)
+//	witness  one minimal exchange per recorded loss class (must fail with exactly its signature)
 package main
 
 import (
 	"encoding/json"
 	"flag"
 	"fmt"
+	"net/url"
 	"os"
 	"path/filepath"
 	"strings"
@@ -24,13 +34,26 @@ import (
 
 type caseInfo struct {
 	Prop    string            `json:"prop"`
+	Stream  string            `json:"stream"`
 	Design  *designgen.Design `json:"design"`
 	Service string            `json:"service"`
 	Method  string            `json:"method"`
 	Payload *designgen.Val    `json:"payload,omitempty"`
 	Result  *designgen.Val    `json:"result,omitempty"`
 	View    string            `json:"view,omitempty"`
-	Stream  string            `json:"stream"`
+	Expect  string            `json:"expect,omitempty"`
+}
+
+type exchange struct {
+	st rt.Step
+	ci caseInfo
+	bu *tierb.Built
+	ep *EpInfo
+	m  *designgen.Method
+}
+
+type replayFile struct {
+	Input caseInfo `json:"input"`
 }
 
 func main() {
@@ -40,27 +63,59 @@ func main() {
 	repo := flag.String("repo", "/repo", "")
 	harness := flag.String("harness", "/verif/harness", "")
 	prop := flag.String("prop", "C02", "")
+	replay := flag.String("replay", "", "")
+	verbose := flag.Bool("v", false, "")
 	flag.Parse()
 	rng := vh.NewRNG(*seed)
 	res := vh.NewResult()
 
-	nDesigns, nVals := 8, 12
+	nDesigns, nVals, nHostile := 8, 12, 6
 	if *tier == "thorough" {
-		nDesigns, nVals = 80, 30
+		nDesigns, nVals, nHostile = 80, 30, 12
 	}
+	var rp *replayFile
+	if *replay != "" {
+		bs, err := os.ReadFile(*replay)
+		if err != nil {
+			panic(err)
+		}
+		rp = &replayFile{}
+		if err := json.Unmarshal(bs, rp); err != nil || rp.Input.Design == nil {
+			panic(fmt.Sprintf("replay file %s holds no exchange (design missing): %v", *replay, err))
+		}
+		nDesigns = 0
+	}
+
 	b, err := tierb.NewBatch(filepath.Join(*out, "tb"), *repo, *harness)
 	if err != nil {
 		panic(err)
 	}
 	b.Env = os.Environ()
+	eps := map[string]map[string]*EpInfo{}
+	extract := func(root *expr.RootExpr, bu *tierb.Built) { eps[bu.Key] = extractEps(root) }
+
+	// design 0: the hand-written witness design (fixed corpus + witness streams)
+	wopts := designgen.DefaultOptions()
+	_ = wopts
+	var wit *tierb.Built
+	if rp == nil {
+		wit, _ = b.Add(witnessDesign(), extract)
+		if wit == nil || wit.GenErr != "" {
+			panic("the witness design was not accepted / generated: " + fmt.Sprint(wit))
+		}
+	} else {
+		bu, oc := b.Add(rp.Input.Design, extract)
+		if bu == nil {
+			panic(fmt.Sprintf("replay design rejected: %v %s", oc.Err, oc.Panic))
+		}
+	}
 	opts := designgen.DefaultOptions()
 	opts.Security = false // credentials are C06's business
-	for i := 0; len(b.Items) < nDesigns && i < nDesigns*3; i++ {
+	for i := 0; len(b.Items) < nDesigns+1 && i < nDesigns*3; i++ {
 		d := designgen.Random(rng.Fork(), opts, i)
-		bu, oc := b.Add(d, func(root *expr.RootExpr, bu *tierb.Built) {})
+		bu, _ := b.Add(d, extract)
 		if bu == nil {
 			res.Count("design_rejected")
-			_ = oc
 			continue
 		}
 		if bu.GenErr != "" {
@@ -70,55 +125,134 @@ func main() {
 	if err := b.Build(); err != nil {
 		panic(err)
 	}
-	var steps []rt.Step
-	var infos []caseInfo
-	for _, bu := range b.Items {
-		if bu.Dropped {
-			res.Count("design_dropped_build")
-			continue
-		}
+
+	var xs []*exchange
+	add := func(bu *tierb.Built, s *designgen.Service, m *designgen.Method, stream string, payload, result *designgen.Val, expect string) {
 		d := bu.Design
-		for _, f := range d.Features {
-			res.Count("feature=" + f)
+		x := &exchange{bu: bu, m: m, ep: eps[bu.Key][s.Name+"/"+m.Name]}
+		x.st = rt.Step{ID: len(xs), Design: bu.Key, Service: s.Name, Method: m.Name}
+		x.ci = caseInfo{Prop: *prop, Stream: stream, Design: d, Service: s.Name, Method: m.Name, Payload: payload, Result: result, Expect: expect}
+		if m.Payload != nil && payload != nil {
+			x.st.Payload = d.ToTree(&m.Payload.T, payload)
 		}
+		if m.Result != nil && result != nil {
+			x.st.Result = d.ToTree(&m.Result.T, result)
+			if isViewed(d, m) && m.ResultView == "" {
+				x.st.View = "default"
+			}
+			x.ci.View = x.st.View
+		}
+		xs = append(xs, x)
+	}
+	findMethod := func(d *designgen.Design, svc, name string) (*designgen.Service, *designgen.Method) {
 		for _, s := range d.Services {
+			if s.Name != svc && svc != "" {
+				continue
+			}
 			for _, m := range s.Methods {
-				for k := 0; k < nVals; k++ {
-					st := rt.Step{ID: len(steps), Design: bu.Key, Service: s.Name, Method: m.Name}
-					ci := caseInfo{Prop: *prop, Design: d, Service: s.Name, Method: m.Name, Stream: "main"}
-					vo := designgen.ValOpts{SafeString: true, NoEmpty: true}
-					switch k % 4 {
-					case 1:
-						vo.AllFields = true
-					case 2:
-						vo.NoOptional = true
-					}
-					if m.Payload != nil {
-						ci.Payload = d.GenVal(rng, m.Payload, vo)
-						st.Payload = d.ToTree(&m.Payload.T, ci.Payload)
-					}
-					if m.Result != nil {
-						ci.Result = d.GenVal(rng, m.Result, vo)
-						st.Result = d.ToTree(&m.Result.T, ci.Result)
-						if isViewed(d, m) && m.ResultView == "" {
-							st.View = "default"
-						}
-						ci.View = st.View
-					}
-					steps = append(steps, st)
-					infos = append(infos, ci)
+				if m.Name == name {
+					return s, m
 				}
 			}
 		}
+		return nil, nil
+	}
+
+	if rp != nil {
+		bu := b.Items[0]
+		if bu.Dropped {
+			panic("replay design does not build: " + bu.BuildErr + bu.GenErr)
+		}
+		s, m := findMethod(bu.Design, rp.Input.Service, rp.Input.Method)
+		if m == nil {
+			panic("replay: no such method")
+		}
+		add(bu, s, m, rp.Input.Stream, rp.Input.Payload, rp.Input.Result, rp.Input.Expect)
+	} else {
+		if wit.Dropped {
+			panic("the witness design does not compile: " + wit.BuildErr)
+		}
+		for _, wc := range fixedCases() {
+			s, m := findMethod(wit.Design, "", wc.Method)
+			if (*prop == "C02") == (wc.Payload != nil) {
+				add(wit, s, m, "fixed", wc.Payload, wc.Result, "")
+			}
+		}
+		for _, wc := range witnessCases(*prop) {
+			s, m := findMethod(wit.Design, "", wc.Method)
+			add(wit, s, m, "witness", wc.Payload, wc.Result, wc.Expect)
+		}
+		for _, bu := range b.Items[1:] {
+			if bu.Dropped {
+				res.Count("design_dropped_build")
+				continue
+			}
+			d := bu.Design
+			for _, f := range d.Features {
+				res.Count("feature=" + f)
+			}
+			for _, s := range d.Services {
+				for _, m := range s.Methods {
+					ep := eps[bu.Key][s.Name+"/"+m.Name]
+					for k := 0; k < nVals+nHostile; k++ {
+						vo := designgen.ValOpts{SafeString: true, NoEmpty: true}
+						switch k % 4 {
+						case 1:
+							vo.AllFields = true
+						case 2:
+							vo.NoOptional = true
+						}
+						stream := "main"
+						if k >= nVals {
+							stream = "hostile"
+						}
+						var pv, rv *designgen.Val
+						if m.Payload != nil {
+							pv = d.GenVal(rng, m.Payload, vo)
+							if stream == "hostile" && ep != nil {
+								pv = hostileIn(d, rng, m.Payload, pv, reqSide(ep), vo)
+							}
+						}
+						if m.Result != nil {
+							rv = d.GenVal(rng, m.Result, vo)
+							if stream == "hostile" && ep != nil {
+								rv = hostileIn(d, rng, m.Result, rv, respSide(ep, selectResp(ep, rv)), vo)
+							}
+						}
+						if ep != nil {
+							pv = fillDefaultedParams(d, rng, m.Payload, pv, reqSide(ep), vo)
+							if rv != nil {
+								rv = fillDefaultedParams(d, rng, m.Result, rv, respSide(ep, selectResp(ep, rv)), vo)
+							}
+							var okp, okr bool
+							pv, okp = keepWireSafe(d, rng, m.Payload, pv, reqSide(ep), false, res)
+							rv, okr = keepWireSafe(d, rng, m.Result, rv, respSide(ep, selectResp(ep, rv)), true, res)
+							if !okp || !okr {
+								res.Count("exchange_skipped_value_outside_wire_safe")
+								continue
+							}
+						}
+						add(bu, s, m, stream, pv, rv, "")
+					}
+				}
+			}
+		}
+	}
+
+	steps := make([]rt.Step, len(xs))
+	for i, x := range xs {
+		steps[i] = x.st
 	}
 	obs, err := b.Run(steps)
 	if err != nil {
 		panic(err)
 	}
 	distinct := vh.Distinct{}
-	for i, st := range steps {
-		ob := obs[st.ID]
-		ci := infos[i]
+	mc := newModelCases(*prop)
+	for _, x := range xs {
+		ob := obs[x.st.ID]
+		ci := x.ci
+		res.Count("stream=" + ci.Stream)
 		if ob == nil {
 			res.Fail("driver-no-observation", "the driver produced no observation for a step", ci)
 			continue
@@ -129,75 +263,339 @@ func main() {
 			continue
 		}
 		res.Evaluations++
-		kb, _ := json.Marshal([]any{ci.Payload, ci.Result, ci.Method})
-		distinct.Add(string(kb))
-		d := ci.Design
-		var m *designgen.Method
-		for _, s := range d.Services {
-			if s.Name == ci.Service {
-				for _, mm := range s.Methods {
-					if mm.Name == ci.Method {
-						m = mm
-					}
-				}
+		sig, what, extra := evaluate(*prop, x, ob)
+		if ob.Invoked == 1 {
+			kb, _ := json.Marshal([]any{x.bu.Key, ci.Payload, ci.Result, ci.Method})
+			distinct.Add(string(kb))
+		}
+		if *verbose {
+			fmt.Printf("%-8s %-4s %-6s sig=%q expect=%q invoked=%d status=%d\n", ci.Stream, x.bu.Key, ci.Method, sig, ci.Expect, ob.Invoked, statusOf(ob))
+			if sig != "" {
+				fmt.Printf("         %s\n", what)
 			}
 		}
-		in := map[string]any{"design": d, "service": ci.Service, "method": ci.Method, "payload": ci.Payload, "result": ci.Result,
-			"wire_request": ob.Req, "wire_response": ob.Resp}
-		if ob.Panic != "" {
-			res.Fail("driver-panic", "panic while running the exchange: "+strings.SplitN(ob.Panic, "\n", 2)[0], in)
-			continue
+		in := map[string]any{"prop": ci.Prop, "stream": ci.Stream, "design": ci.Design, "service": ci.Service, "method": ci.Method,
+			"payload": ci.Payload, "result": ci.Result, "expect": ci.Expect, "wire_request": ob.Req, "wire_response": ob.Resp}
+		for k, v := range extra {
+			in[k] = v
 		}
-		// C02: the payload arrives intact
-		if *prop == "C02" {
-			if ob.Invoked != 1 {
-				in["client_error"] = ob.ClientErr
-				res.Fail("valid-request-not-delivered", fmt.Sprintf("a payload satisfying the design did not reach the service method (invoked %d times, status %d)", ob.Invoked, statusOf(ob)), in)
-				continue
+		switch {
+		case sig == "" && ci.Stream == "witness":
+			res.Count("witness_not_reproduced=" + ci.Expect)
+		case sig == "":
+		case ci.Stream == "witness":
+			// a witness exchange must fail with exactly the signature of its loss class
+			if sig != ci.Expect {
+				sig = "witness-changed:" + ci.Expect + "->" + sig
 			}
-			if m.Payload != nil {
-				got := d.FromTree(&m.Payload.T, ob.Got)
-				want := withDefaults(d, &m.Payload.T, ci.Payload)
-				if !got.Equal(want) {
-					in["received"] = got
-					in["expected"] = want
-					res.Fail("payload-changed:"+diffClass(d, &m.Payload.T, want, got), fmt.Sprintf("service method received %s, the client was given %s", got, want), in)
-				}
-			}
-			res.Sample(map[string]any{"method": ci.Method, "payload": ci.Payload, "wire": ob.Req}, 3)
+			res.Fail(sig, what, in)
+		default:
+			// inside wire_safe the full property is expected: never matched against known findings
+			res.Fail(ci.Stream+"/"+sig, what, in)
 		}
-		if *prop == "C03" {
-			if ob.Invoked != 1 {
-				continue
+		if sig == "" || ci.Stream == "witness" {
+			mc.add(x, ob, res)
+		}
+		if ci.Stream != "witness" {
+			if *prop == "C02" {
+				res.Sample(map[string]any{"method": ci.Method, "payload": ci.Payload, "wire": ob.Req}, 3)
+			} else {
+				res.Sample(map[string]any{"method": ci.Method, "result": ci.Result, "wire": ob.Resp}, 3)
 			}
-			if ob.ClientErr != nil {
-				in["client_error"] = ob.ClientErr
-				res.Fail("valid-result-not-delivered", fmt.Sprintf("client returned error %s: %s for a result satisfying the design", ob.ClientErr.Name, ob.ClientErr.Message), in)
-				continue
-			}
-			if m.Result != nil {
-				got := d.FromTree(&m.Result.T, ob.ClientResult)
-				want := withDefaults(d, &m.Result.T, ci.Result)
-				if ci.View != "" || m.ResultView != "" {
-					continue // views are C08's business
-				}
-				if !got.Equal(want) {
-					in["received"] = got
-					in["expected"] = want
-					res.Fail("result-changed:"+diffClass(d, &m.Result.T, want, got), fmt.Sprintf("client returned %s, the service returned %s", got, want), in)
-				}
-				if want := designedStatus(m, ci.Result); want != 0 && ob.Resp != nil && ob.Resp.Status != want {
-					res.Fail("status-not-designed", fmt.Sprintf("response status %d, design assigns %d", ob.Resp.Status, want), in)
-				}
-			}
-			res.Sample(map[string]any{"method": ci.Method, "result": ci.Result, "wire": ob.Resp}, 3)
 		}
 	}
+	// tier A: partition of every endpoint of every accepted design (goa's finalisation vs the model's)
+	for _, bu := range b.Items {
+		if bu.GenErr != "" && eps[bu.Key] == nil {
+			continue
+		}
+		for _, s := range bu.Design.Services {
+			for _, m := range s.Methods {
+				mc.addPartition(bu, s, m, eps[bu.Key][s.Name+"/"+m.Name], res)
+			}
+		}
+	}
+	if err := mc.write(*out, res); err != nil {
+		panic(err)
+	}
 	res.Distinct = len(distinct)
-	res.Rule = "designs: designgen.Random (HTTP envelope, compile-clean options); per method values from boundary classes (all optional set / none set / mixed; transport-safe strings in the main stream); non-trivial = exchange that reached the service method; distinct = distinct (method, payload, result)"
+	res.Rule = "designs: hand-written witness design + designgen.Random (HTTP envelope, compile-clean options, Security off); per method: values from boundary classes (all optional set / none set / mixed), transport-safe strings in the main stream, hostile strings in body attributes and query parameters in the hostile stream, one minimal exchange per recorded loss class in the witness stream; evaluation = one client->server exchange judged by the direct oracle; non-trivial = exchange that reached the service method; distinct = distinct (design, method, payload, result)"
 	if err := res.Write(filepath.Join(*out, "result.json")); err != nil {
 		panic(err)
 	}
+}
+
+// hostileIn redraws, with hostile strings, the attributes that travel in the body or
+// in the query string (the locations where the full property is expected to hold for
+// every string); everything else keeps its transport-safe value.
+func hostileIn(d *designgen.Design, rng *vh.RNG, a *designgen.Attr, v *designgen.Val, s side, vo designgen.ValOpts) *designgen.Val {
+	hv := vo
+	hv.SafeString = false
+	okLoc := func(l string) bool { return l == "body" || l == "query" }
+	if !s.object || v == nil || v.K != "object" {
+		if okLoc(s.whole) || (s.object && v != nil && v.K != "object") {
+			return d.GenVal(rng, a, hv)
+		}
+		if s.object {
+			// user-type payload/result: per-attribute locations known from the extracted endpoint
+			return v
+		}
+		return v
+	}
+	out := v.Clone()
+	for _, f := range d.AllFields(&a.T) {
+		if out.Get(f.Name) == nil || !okLoc(s.locOf(f.Name)) {
+			continue
+		}
+		nv := d.GenVal(rng, &f.A, designgen.ValOpts{Depth: 1, SafeString: false, NoEmpty: true, AllFields: vo.AllFields, NoOptional: vo.NoOptional})
+		if f.A.HasDef && isZero(nv) {
+			continue
+		}
+		out.Set(f.Name, nv)
+	}
+	return out
+}
+
+// fillDefaultedParams keeps the main streams outside the recorded loss class
+// "unset defaulted non-string parameter is sent as its zero value": such an attribute
+// (query / header / cookie, any primitive but String) is always given a value.
+func fillDefaultedParams(d *designgen.Design, rng *vh.RNG, a *designgen.Attr, v *designgen.Val, s side, vo designgen.ValOpts) *designgen.Val {
+	if a == nil || v == nil || !s.object || v.K != "object" {
+		return v
+	}
+	out := v
+	for _, f := range d.AllFields(&a.T) {
+		loc := s.locOf(f.Name)
+		if !f.A.HasDef || out.Get(f.Name) != nil || !(loc == "query" || loc == "header" || loc == "cookie") {
+			continue
+		}
+		bt, _ := d.Base(&f.A.T)
+		if bt.Kind != "prim" || bt.Prim == "String" {
+			continue
+		}
+		if out == v {
+			out = v.Clone()
+		}
+		var nv *designgen.Val
+		for tries := 0; tries < 8; tries++ {
+			nv = d.GenVal(rng, &f.A, designgen.ValOpts{Depth: 1, SafeString: true, NoEmpty: true})
+			if !isZero(nv) {
+				break
+			}
+		}
+		if isZero(nv) {
+			nv = defVal(normDefault(f.A.Default), &f.A.T)
+		}
+		out.Set(f.Name, nv)
+	}
+	return out
+}
+
+// locSafe: the Go-side mirror of Transport.safe_str / safe_elem for one location.
+func locSafe(loc string, v *designgen.Val, elem bool) bool {
+	if v == nil {
+		return true
+	}
+	switch v.K {
+	case "array":
+		if len(v.Elems) == 0 {
+			return false
+		}
+		for _, e := range v.Elems {
+			if !locSafe(loc, e, true) {
+				return false
+			}
+		}
+		return loc != "path" || pathText(v) != ""
+	case "string":
+		s := v.S
+		switch loc {
+		case "path":
+			if elem {
+				return !strings.ContainsAny(s, " ,")
+			}
+			return s != "" && !strings.Contains(s, "/") && !hasPctTriple(s)
+		case "query":
+			return elem || s != ""
+		case "header":
+			ok := trimHeader(s) == s
+			for i := 0; i < len(s); i++ {
+				if (s[i] < 0x20 && s[i] != '\t') || s[i] == 0x7f {
+					ok = false
+				}
+			}
+			return ok && (elem || s != "")
+		case "cookie":
+			return sanitizeCookie(s) == s && s != ""
+		}
+	}
+	return true
+}
+
+// keepWireSafe keeps the main streams inside wire_safe when a validation (Enum, Format,
+// Pattern samples) forces a string that a location cannot carry (for instance the enum
+// value "é" in a cookie, a uri in a path segment): the attribute is redrawn, left unset
+// when optional, or the exchange is skipped. Response header arrays keep one element.
+func keepWireSafe(d *designgen.Design, rng *vh.RNG, a *designgen.Attr, v *designgen.Val, s side, response bool, res *vh.Result) (*designgen.Val, bool) {
+	if a == nil || v == nil {
+		return v, true
+	}
+	if !s.object || v.K != "object" {
+		if s.whole == "body" || locSafe(s.whole, v, false) {
+			return v, true
+		}
+		for tries := 0; tries < 8; tries++ {
+			nv := d.GenVal(rng, a, designgen.ValOpts{SafeString: true, NoEmpty: true})
+			if locSafe(s.whole, nv, false) {
+				res.Count("value_redrawn_for_wire_safety")
+				return nv, true
+			}
+		}
+		return v, false
+	}
+	out := v
+	for _, f := range d.AllFields(&a.T) {
+		loc := s.locOf(f.Name)
+		cur := out.Get(f.Name)
+		if cur == nil || loc == "body" {
+			continue
+		}
+		fix := func(nv *designgen.Val) {
+			if out == v {
+				out = v.Clone()
+			}
+			if nv == nil {
+				out.Unset(f.Name)
+			} else {
+				out.Set(f.Name, nv)
+			}
+		}
+		if response && loc == "header" && cur.K == "array" && len(cur.Elems) > 1 {
+			nv := cur.Clone()
+			nv.Elems = nv.Elems[:1]
+			fix(nv)
+			cur = nv
+			res.Count("response_header_array_cut_to_one_element")
+		}
+		if locSafe(loc, cur, false) {
+			continue
+		}
+		done := false
+		for tries := 0; tries < 8 && !done; tries++ {
+			nv := d.GenVal(rng, &f.A, designgen.ValOpts{Depth: 1, SafeString: true, NoEmpty: true})
+			if response && loc == "header" && nv.K == "array" && len(nv.Elems) > 1 {
+				nv.Elems = nv.Elems[:1]
+			}
+			if locSafe(loc, nv, false) && !(f.A.HasDef && isZero(nv)) {
+				fix(nv)
+				done = true
+				res.Count("value_redrawn_for_wire_safety")
+			}
+		}
+		if !done {
+			if f.Required {
+				return v, false
+			}
+			fix(nil)
+			res.Count("value_unset_for_wire_safety")
+		}
+	}
+	return out, true
+}
+
+// selectResp: the success response the design selects for this result (tag match first, then the untagged one).
+func selectResp(ep *EpInfo, res *designgen.Val) *RespInfo {
+	if ep == nil {
+		return nil
+	}
+	for i := range ep.Responses {
+		r := &ep.Responses[i]
+		if len(r.Tag) == 2 {
+			if v := res.Get(r.Tag[0]); v != nil && v.K == "string" && v.S == r.Tag[1] {
+				return r
+			}
+		}
+	}
+	for i := range ep.Responses {
+		if len(ep.Responses[i].Tag) == 0 {
+			return &ep.Responses[i]
+		}
+	}
+	return nil
+}
+
+// evaluate is the direct oracle: the property's own statement on what the real code did.
+func evaluate(prop string, x *exchange, ob *rt.Obs) (sig, what string, extra map[string]any) {
+	ci, d, m := x.ci, x.ci.Design, x.m
+	extra = map[string]any{}
+	if ob.Panic != "" {
+		return "driver-panic", "panic while running the exchange: " + strings.SplitN(ob.Panic, "\n", 2)[0], extra
+	}
+	if prop == "C02" {
+		if ob.Invoked != 1 {
+			extra["client_error"] = ob.ClientErr
+			s := fmt.Sprintf("valid-request-not-delivered:%d", statusOf(ob))
+			if x.ep != nil && m.Payload != nil {
+				s = classifyRequest(x.ep, ci.Payload, nil, nil, ob)
+			}
+			return s, fmt.Sprintf("a payload satisfying the design did not reach the service method (invoked %d times, status %d): %s", ob.Invoked, statusOf(ob), ci.Payload), extra
+		}
+		if m.Payload != nil {
+			got := d.FromTree(&m.Payload.T, ob.Got)
+			want := withDefaults(d, &m.Payload.T, ci.Payload)
+			if !got.Equal(want) {
+				extra["received"], extra["expected"] = got, want
+				s := "payload-changed:" + diffClass(d, &m.Payload.T, want, got)
+				if x.ep != nil {
+					s = classifyRequest(x.ep, ci.Payload, want, got, ob)
+				}
+				return s, fmt.Sprintf("service method received %s, the client was given %s", got, want), extra
+			}
+		}
+		// every attribute travels in exactly the location the design assigns it: nothing else on the wire
+		if x.ep != nil && ob.Req != nil {
+			if s, w := strayOnWire(x.ep, m, ob.Req); s != "" {
+				return s, w, extra
+			}
+		}
+		return "", "", extra
+	}
+	// C03
+	if ob.Invoked != 1 {
+		return "", "", extra // the request side is C02's business
+	}
+	sel := selectResp(x.ep, ci.Result)
+	if ob.ClientErr != nil {
+		extra["client_error"] = ob.ClientErr
+		s := "valid-result-not-delivered:" + ob.ClientErr.Name
+		if x.ep != nil && m.Result != nil {
+			s = classifyResponse(x.ep, sel, ci.Result, nil, nil, ob)
+		}
+		return s, fmt.Sprintf("client returned error %s: %s for a result satisfying the design: %s", ob.ClientErr.Name, ob.ClientErr.Message, ci.Result), extra
+	}
+	if m.Result != nil {
+		if ci.View != "" || m.ResultView != "" {
+			return "", "", extra // views are C08's business
+		}
+		got := d.FromTree(&m.Result.T, ob.ClientResult)
+		want := withDefaults(d, &m.Result.T, ci.Result)
+		if !got.Equal(want) {
+			extra["received"], extra["expected"] = got, want
+			s := "result-changed:" + diffClass(d, &m.Result.T, want, got)
+			if x.ep != nil {
+				s = classifyResponse(x.ep, sel, ci.Result, want, got, ob)
+			}
+			return s, fmt.Sprintf("client returned %s, the service returned %s", got, want), extra
+		}
+		if want := designedStatus(m, ci.Result); want != 0 && ob.Resp != nil && ob.Resp.Status != want {
+			return "status-not-designed", fmt.Sprintf("response status %d, design assigns %d", ob.Resp.Status, want), extra
+		}
+	} else if ob.Resp != nil {
+		if want := designedStatus(m, nil); want != 0 && ob.Resp.Status != want {
+			return "status-not-designed", fmt.Sprintf("response status %d, design assigns %d", ob.Resp.Status, want), extra
+		}
+	}
+	return "", "", extra
 }
 
 func statusOf(ob *rt.Obs) int {
@@ -318,7 +716,8 @@ func defVal(x any, t *designgen.Type) *designgen.Val {
 	return designgen.Null
 }
 
-// diffClass names the first differing attribute's situation (classifier for findings).
+// diffClass names the first differing attribute's situation (fallback classifier when
+// the finalised endpoint is not available).
 func diffClass(d *designgen.Design, t *designgen.Type, want, got *designgen.Val) string {
 	if want == nil || got == nil || want.K != got.K {
 		return "kind"
@@ -347,4 +746,96 @@ func diffClass(d *designgen.Design, t *designgen.Type, want, got *designgen.Val)
 		return "map-size"
 	}
 	return "value"
+}
+
+// strayOnWire: the tapped request carries a body member or a query key that the design
+// does not put there (an attribute duplicated outside its designed location).
+func strayOnWire(ep *EpInfo, m *designgen.Method, w *rt.Wire) (string, string) {
+	if ep.PayloadKind == "object" && !ep.Multipart && strings.TrimSpace(w.Body) != "" && (ep.BodyKind == "object" || ep.BodyKind == "empty") {
+		var obj map[string]json.RawMessage
+		if json.Unmarshal([]byte(w.Body), &obj) == nil {
+			// the designed body members, from the design description alone (not from goa's
+			// finalisation, so that a finalisation defect shows here): payload minus mapped
+			allowed := map[string]bool{}
+			designed := []string{}
+			if m.HTTP != nil && m.HTTP.Body != nil {
+				designed = append(designed, m.HTTP.Body.Attrs...)
+				if m.HTTP.Body.Attr != "" {
+					designed = nil
+					for _, a := range ep.BodyAttrs {
+						designed = append(designed, a)
+					}
+				}
+			} else if m.HTTP != nil {
+				mapped := map[string]bool{}
+				for _, e := range m.HTTP.Params {
+					mapped[e.Attr] = true
+				}
+				for _, e := range m.HTTP.Headers {
+					mapped[e.Attr] = true
+				}
+				for _, e := range m.HTTP.Cookies {
+					mapped[e.Attr] = true
+				}
+				for _, r := range m.HTTP.Routes {
+					for _, seg := range strings.Split(r.Path, "/") {
+						if strings.HasPrefix(seg, "{") {
+							mapped[strings.Trim(seg, "{*}")] = true
+						}
+					}
+				}
+				for _, a := range ep.PayloadAttrs {
+					if !mapped[a.Name] {
+						designed = append(designed, a.Name)
+					}
+				}
+			}
+			for _, a := range designed {
+				allowed[a] = true
+			}
+			var stray []string
+			for _, k := range vh.SortedKeys(obj) {
+				if !allowed[k] {
+					stray = append(stray, k)
+				}
+			}
+			if len(stray) > 0 {
+				sig := "attribute-outside-designed-location:body"
+				if m.HTTP != nil && m.HTTP.Body != nil && len(m.HTTP.Body.Attrs) > 0 {
+					goNames := true
+					for _, k := range stray {
+						found := false
+						for _, a := range ep.PayloadAttrs {
+							if designgen.GoField(a.Name) == k {
+								found = true
+							}
+						}
+						goNames = goNames && found
+					}
+					if goNames {
+						sig = "inline-body-sends-whole-payload"
+					}
+				}
+				return sig, fmt.Sprintf("the request body carries members %v; the design puts only %v in the body", stray, designed)
+			}
+		}
+	}
+	if ep.PayloadKind == "object" && !ep.MapQuery && w.Query != "" {
+		for _, piece := range strings.Split(w.Query, "&") {
+			k, _, _ := strings.Cut(piece, "=")
+			if uk, err := url.QueryUnescape(k); err == nil {
+				k = uk
+			}
+			ok := false
+			for _, q := range ep.Query {
+				if k == q.Wire || strings.HasPrefix(k, q.Wire+"[") {
+					ok = true
+				}
+			}
+			if !ok {
+				return "attribute-outside-designed-location:query", fmt.Sprintf("the query string carries key %q; the design has query parameters %v", k, ep.Query)
+			}
+		}
+	}
+	return "", ""
 }
